@@ -91,9 +91,11 @@ def CE.hasPre (e : CE) : Bool := e.preQ || e.preU || e.preZ || !e.preDV.isEmpty 
 def CE.invN (e : CE) (n : Nat) : CE :=
   if n = 0 then e else { e with stamp := 0, flag := false, valVer := e.valVer + n, fresh := false }
 
-/-- ghost bookkeeping of `restoreToStage(g)` from stage `cur`: the depends-on stage of `e` is invalidated -/
-def CE.unfresh (e : CE) (g cur : Nat) : CE :=
-  if g < e.dep ∧ e.dep ≤ cur then { e with fresh := false } else e
+/-- ghost bookkeeping of `restoreToStage(g)`: by the *specification* ("valid only if marked after the last change to
+its depends-on stage") every surviving entry whose depends-on stage is above `g` loses its freshness — also when the
+subsystem had not reached that stage (`cur` is kept as an argument only to name that case in the proofs). -/
+def CE.unfresh (e : CE) (g _cur : Nat) : CE :=
+  if g < e.dep then { e with fresh := false } else e
 
 /-- `DiscreteVarInfo` -/
 structure DV where
@@ -709,6 +711,30 @@ def legal (w : World) : Op → Bool
   | .addSub k => match w.live k with | some st => st.pristine && st.subs.length < 4 | none => false
   | .snap k | .diff k => (w.live k).isSome
   | .probeStale k s c => match w.live k with | some st => (st.ce? (s, c)).isSome | none => false
+
+/-- the marking discipline under which the code's version stamps agree with the specification's freshness: a cache
+entry is marked valid only once its subsystem has *reached* the depends-on stage (`markCacheValueRealized` itself
+accepts the call one stage earlier: see `mark_one_stage_early_survives_change` in the proofs) -/
+def strictS (st : St) : SOp → Bool
+  | .mark s c => match st.subs[s]? with
+      | some sb => match sb.ces[c]? with
+        | some e => sb.cur ≥ e.dep
+        | none => false
+      | none => false
+  | .markDVUpd s d => match st.subs[s]? with
+      | some sb => match sb.dvs[d]? with
+        | some dv => match dv.auto with
+          | some cx => match sb.ces[cx]? with
+            | some e => sb.cur ≥ e.dep
+            | none => false
+          | none => false
+        | none => false
+      | none => false
+  | _ => true
+
+def strict (w : World) : Op → Bool
+  | .on k o => match w.live k with | some st => strictS st o | none => true
+  | _ => true
 
 def setSlot (l : List (Option St)) (k : Nat) (v : Option St) : List (Option St) := modAt l k (fun _ => v)
 
